@@ -56,15 +56,15 @@ def branch(test_text):
 
 
 def malformed_block(fn):
+    """the first statements of the loop body: `<m> = re.match(..., cmd_param)` and the `if <m> is None: raise`"""
     lp = token_loop(fn)
-    if lp is None:
+    if lp is None or len(lp.body) < 2:
         return []
-    out = []
-    for s in lp.body:
-        text = ast.unparse(s)
-        if text.startswith("re_param =") or (isinstance(s, ast.If) and "re_param is None" in ast.unparse(s.test)):
-            out.append(s)
-    return out if len(out) == 2 else []
+    a, b = lp.body[0], lp.body[1]
+    if isinstance(a, ast.Assign) and ast.unparse(a.value).startswith("re.match(") and isinstance(b, ast.If) \
+            and ast.unparse(b.test).endswith(" is None"):
+        return [a, b]
+    return []
 
 
 def re_match(eng, st, recv, args, kw, node):
@@ -98,7 +98,6 @@ KEPT = ("forall(STR, lambda k: implies(k != {key}, (k in param_dict) == old(k in
 MALFORMED = Contract(
     target=f"{CMD}::params_from_cmd", name="params_from_cmd#malformed", block=("malformed", malformed_block),
     params={"cmd_param": STR},
-    outputs={"re_param": Ref("Match")},
     overrides={"re.match": re_match},
     raises={"ValueError": None},
     ensures=[
